@@ -200,15 +200,16 @@ CHECKS = {
  "C12": dict(
   category="proof",
   text=("Verified oracle checkC12_iff + kernel-decided table theorems grey_unique / grey_count / grey_fixed (exactly one type-II entry per ITA number). Explored: the returned UNI number equals the generating one for generated "
-        "magnetic structures in re-described cells and orientations (moments rotated with the frame), with all moments reversed, and all-zero moments give the grey group of the family space group; an Err counts as a violation."),
-  design_ref="DESIGN.md §3 C12", note=PIPE_NOTE + " The identification stage for magnetic groups is not modelled.",
+        "magnetic structures in re-described cells and orientations (moments rotated with the frame), with all moments reversed, and all-zero moments give the grey group of the family space group; an Err counts as a violation. Weakly canted cases are not judged for C12."),
+  design_ref="DESIGN.md §3 C12", note=PIPE_NOTE + " Stage s5m: Lean model of MagneticSpaceGroup::new (family / maximal-subgroup construction, construct-type branch, integral normalizer, type-III and type-IV conjugator search) compared with the real function on all 1651 tabulated groups (own + re-based) and on generated crystals; theorems Props/C12Stages.lean (type_branch_sound, identify_mag_sound, normalizer_sound, uni_range_table; completeness for types III/IV partial).",
   technique="Lean 4 oracle + table theorems over regenerated magnetic tables, run on generated magnetic structures"),
  "C13": dict(
   category="proof",
   text=("Verified oracle checkC13_iff for every clause of C13 (lattice relations, atoms and moments carried by the reported transformation onto std_mag_cell / prim_std_mag_cell sites, exact symmetry of std_mag_cell under the "
         "transported reported operations, the tabulated reference-setting operations and — outside type-IV triclinic/monoclinic — the tabulated magnetic operations of the UNI number); reynolds_moments (averaging a linear "
         "representation over a finite group with a compatible site action gives invariant moments); kernel-checked negative instances for the three defects of the pinned tree (frame, site map, origin shift), which were "
-        "repaired by fix commits. Explored as C11."),
+        "repaired by fix commits. Explored as C11, plus inputs with noise of 5 % of the tolerances (a fourth defect - type-IV positions not averaged over the anti-translation coset - was found there and repaired). "
+        "Stage s6m: Lean model of StandardizedMagneticCell::new compared with the real function; theorems Props/C13Stages.lean (reynolds_moments_exact, std_frame_moments, reference_ops_sound, position invariance)."),
   design_ref="DESIGN.md §3 C13", note=PIPE_NOTE,
   technique="Lean 4 verified oracle (iff) + Reynolds theorem + negative witnesses for the repaired defects"),
 }
